@@ -150,31 +150,106 @@ func (c *recConn) ReadBytes() []byte {
 }
 
 // tcpPair returns a connected TCP loopback pair (client end, server end).
+//
+// One listener per process serves every pair (accepted connections are matched to their dialer by
+// the dialer's local address), and address exhaustion (EADDRINUSE / EADDRNOTAVAIL while tens of
+// thousands of loopback sockets sit in TIME_WAIT, as in a thorough-tier run next to other checks)
+// is waited out: it is a condition of the sandbox, never an outcome of the code under test.
 func tcpPair() (net.Conn, net.Conn, error) {
+	var lastErr error
+	for attempt := 0; attempt < 400; attempt++ {
+		cc, sc, err := tcpPairOnce()
+		if err == nil {
+			return cc, sc, nil
+		}
+		lastErr = err
+		if !addrExhausted(err) {
+			return nil, nil, err
+		}
+		time.Sleep(time.Duration(100+20*attempt) * time.Millisecond)
+	}
+	return nil, nil, lastErr
+}
+
+func addrExhausted(err error) bool {
+	m := err.Error()
+	return strings.Contains(m, "address already in use") || strings.Contains(m, "cannot assign requested address") ||
+		strings.Contains(m, "pair-accept-timeout")
+}
+
+var (
+	pairMu   sync.Mutex
+	pairLn   net.Listener
+	pairWait = map[string]chan net.Conn{}
+	pairGot  = map[string]net.Conn{}
+)
+
+func pairListener() (net.Listener, error) {
+	pairMu.Lock()
+	defer pairMu.Unlock()
+	if pairLn != nil {
+		return pairLn, nil
+	}
 	ln, err := net.Listen("tcp", "127.0.0.1:0")
+	if err != nil {
+		return nil, err
+	}
+	pairLn = ln
+	go func() {
+		for {
+			c, err := ln.Accept()
+			if err != nil {
+				pairMu.Lock()
+				if pairLn == ln {
+					pairLn = nil
+				}
+				pairMu.Unlock()
+				ln.Close()
+				return
+			}
+			key := c.RemoteAddr().String()
+			pairMu.Lock()
+			if ch, ok := pairWait[key]; ok {
+				delete(pairWait, key)
+				ch <- c
+			} else {
+				pairGot[key] = c
+			}
+			pairMu.Unlock()
+		}
+	}()
+	return ln, nil
+}
+
+func tcpPairOnce() (net.Conn, net.Conn, error) {
+	ln, err := pairListener()
 	if err != nil {
 		return nil, nil, err
 	}
-	defer ln.Close()
-	type acc struct {
-		c   net.Conn
-		err error
-	}
-	ch := make(chan acc, 1)
-	go func() {
-		c, err := ln.Accept()
-		ch <- acc{c, err}
-	}()
 	cc, err := net.Dial("tcp", ln.Addr().String())
 	if err != nil {
 		return nil, nil, err
 	}
-	a := <-ch
-	if a.err != nil {
-		cc.Close()
-		return nil, nil, a.err
+	key := cc.LocalAddr().String()
+	pairMu.Lock()
+	if c, ok := pairGot[key]; ok {
+		delete(pairGot, key)
+		pairMu.Unlock()
+		return cc, c, nil
 	}
-	return cc, a.c, nil
+	ch := make(chan net.Conn, 1)
+	pairWait[key] = ch
+	pairMu.Unlock()
+	select {
+	case c := <-ch:
+		return cc, c, nil
+	case <-time.After(20 * time.Second):
+		pairMu.Lock()
+		delete(pairWait, key)
+		pairMu.Unlock()
+		cc.Close()
+		return nil, nil, errors.New("pair-accept-timeout")
+	}
 }
 
 // ---- TLS records ----
